@@ -100,6 +100,9 @@ def term_cases(t):
         return [("Some", [], t)]
     if k == "agg" and t[1].endswith("Option::None"):
         return [("None", [], t)]
+    if k == "agg" and "::" in t[1] and not t[2] and not t[1].startswith("std::"):
+        # a field-less variant of a crate-local enum (`enum Turn { Mine, NotYet, Over }`): the class is the variant name
+        return [(t[1].rsplit("::", 1)[1], [], t)]
     if k == "un" and t[1] == "Not":
         return [((not K) if isinstance(K, bool) else K, fs, t) for (K, fs, _) in term_cases(t[2])]
     if k == "phi":
@@ -256,7 +259,14 @@ def _site_facts(ev, ctx, bb, l, K):
         cases = local_cases(ev, ctx, l) or []
         ctx.memo[key] = cases
     known = block_facts(ev, ctx, bb)  # what holds before the edge is taken is not news
-    return [f for f in class_facts(cases, K) if f not in known]
+    out = [f for f in class_facts(cases, K) if f not in known]
+    sel = [c[1] for c in cases if type(c[0]) is type(K) and c[0] == K]
+    if len(sel) > 1:
+        # the value was produced at one of several sites: a disjunction, for rules that judge every alternative
+        alts = tuple(tuple(f for f in fs if f not in known and f[0] != "anyof") for fs in sel)
+        if all(alts) and len(set(alts)) > 1:
+            out.append(("anyof", alts))
+    return out
 
 
 def switch_facts(ev, ctx, bb, target_vals, is_otherwise, listed_vals):
